@@ -38,6 +38,10 @@ func checkC14(c *Check) {
 	ruleSingleSinkWriter(c, p, "R14.5")
 	ruleDirectWrite(c, p, "R14.6")
 	ruleRawFlagPairing(c, p, "R14.7")
+	ruleInitWAfterDescriptor(c, p, "R14.16")
+	c.RuleDoc["R14.16"] = "the block pipeline is set up after the descriptor's block size is final"
+	ruleSizeTables(c, p, "R14.15")
+	c.RuleDoc["R14.15"] = "= R02.4: block-size code, pool and buffer size tables agree (a buffer returned to the pool of another size class makes the next frame's block size depend on what ran before)"
 	ruleBuffersRefetched(c, p, "R14.8", "Writer", "CompressingReader")
 	ruleContentHashDiscipline(c, p, "R14.9")
 	ruleFullBlockReads(c, p, "R14.12")
@@ -914,6 +918,70 @@ func checkC18(c *Check) {
 		}
 		c.Cond(bad == "", "R18.15", "CompressingReader.Read#source-eof-consumed", p.InstrPos(closeW), "after the source's error has compared equal to io.EOF / io.ErrUnexpectedEOF, the error result is assigned again before any return (the end of the source is not the end of the compressed stream)", "every path from the identity test to a return stores the error variable", "the return at "+bad+" hands the source's end-of-input error to the caller: the frame's trailer (or what does not fit the caller's buffer) is never read")
 	}
+	// R18.18: an error of the source that is not the end of input is handed to the caller as it is: on the paths from the
+	// source read on which the error is neither nil nor identical to io.EOF / io.ErrUnexpectedEOF, the error variable
+	// is not assigned again (a re-formatted error cannot be recognised with == or errors.Is).
+	if rf != nil && rf.Parent() == fn {
+		var cell ssa.Value
+		if call, isCall := rf.(*ssa.Call); isCall {
+			for _, r := range *call.Referrers() {
+				if ex, isE := r.(*ssa.Extract); isE && ex.Index == 1 {
+					for _, rr := range *ex.Referrers() {
+						if st, isS := rr.(*ssa.Store); isS && st.Val == ssa.Value(ex) {
+							cell = st.Addr
+						}
+					}
+				}
+			}
+		}
+		if cell != nil {
+			bad := ""
+			seenB := map[*ssa.BasicBlock]bool{}
+			var walk func(b *ssa.BasicBlock, from int)
+			walk = func(b *ssa.BasicBlock, from int) {
+				if from == 0 {
+					if seenB[b] {
+						return
+					}
+					seenB[b] = true
+				}
+				for _, in := range b.Instrs[from:] {
+					if st, isS := in.(*ssa.Store); isS && st.Addr == cell && bad == "" {
+						bad = p.InstrPos(in)
+					}
+				}
+				ifi, isIf := b.Instrs[len(b.Instrs)-1].(*ssa.If)
+				for k, s := range b.Succs {
+					skip := false
+					for _, e := range eqs {
+						if e.b == b && e.ix == k {
+							skip = true // the end-of-input arms
+						}
+					}
+					if isIf && len(b.Succs) == 2 {
+						a := atomOf(ifi.Cond, k == 0)
+						if ld, isL := a.V.(*ssa.UnOp); a.Kind == "errnil" && a.Val && isL && ld.Op == token.MUL && ld.X == cell {
+							skip = true // the read succeeded
+						}
+					}
+					if !skip {
+						walk(s, 0)
+					}
+				}
+			}
+			// the store of the read's own error comes right after the call: start behind it
+			start := idxOf(rf) + 1
+			for i, in := range rf.Block().Instrs {
+				if st, isS := in.(*ssa.Store); isS && st.Addr == cell && i > idxOf(rf) {
+					start = i + 1
+					break
+				}
+			}
+			walk(rf.Block(), start)
+			c.Sites++
+			c.Cond(bad == "", "R18.18", "CompressingReader.Read#source-error-unchanged", p.InstrPos(rf), "a source error other than the end of input reaches the caller as the very value the source returned", "no assignment of the error result on those paths", "the error result is assigned again at "+bad+" on a path where the source has failed: the caller no longer receives the source's error value")
+		}
+	}
 	ruleErrorsNotAbsorbed(c, p, "R18.1", []*ssa.Function{fn, p.Func("", "CompressingReader.init")}, map[string]string{})
 	// R18.2: after CloseW succeeds, state = Flushing on every path; CloseW only reachable in state Reading
 	isFlush := func(in ssa.Instruction) bool {
@@ -1090,8 +1158,11 @@ func checkC18(c *Check) {
 	c.RuleDoc["R18.12"] = "SizeOption sets flag and size unconditionally for the compressing reader as for the Writer"
 	ruleAdapterAccounting(c, p, "R18.11")
 	c.RuleDoc["R18.11"] = "byte accounting of the output adapter (bounds prover): Write adds exactly len(p) pending bytes, reset consumes exactly len(out) or none, clear leaves none; positions stay inside their slices"
+	ruleCompressingReaderReset(c, p, "R18.17")
+	c.RuleDoc["R18.17"] = "CompressingReader.Reset re-arms frame, state and source on every path"
 	ruleApplyOnlyInitial(c, p, "R18.16")
 	c.RuleDoc["R18.16"] = "CompressingReader.Apply acts only in the Initial state"
+	c.RuleDoc["R18.18"] = "a source error other than the end of input is passed through unchanged (the error result is not assigned again on those paths)"
 	c.RuleDoc["R18.15"] = "the source's end-of-input error is consumed by the end-of-source branch (the error result is assigned again before any return)"
 	ruleNoEmptyBlock(c, p, "R18.10", "CompressingReader")
 	c.RuleDoc["R18.10"] = "no empty data block is emitted by the compressing reader"
@@ -1386,4 +1457,41 @@ func ruleApplyOnlyInitial(c *Check, p *Program, rule string) {
 		return
 	}
 	c.Cond(bad == "", rule, "CompressingReader.Apply#only-in-initial-state", p.Pos(fn.Pos()), "Apply resets the object and runs the options only in the Initial state (before the first Read)", fmt.Sprintf("%d site(s), state set {Initial} at each", n), "the site at "+bad+" is reachable with the state in "+badSet.String()+": options (and the reset Apply starts with) take effect in the middle of a frame already being handed out")
+}
+
+// R18.17: CompressingReader.Reset re-arms the frame and its own state on every
+// path. Frame.Reset is what clears the "header already written" latch
+// (Descriptor.Checksum) and the magic: skipping it for a finished frame makes
+// the next frame start without magic and descriptor.
+func ruleCompressingReaderReset(c *Check, p *Program, rule string) {
+	fn := findFn(c, p, rule, "", "CompressingReader.Reset")
+	if fn == nil {
+		return
+	}
+	onAll := func(hit func(ssa.Instruction) bool) bool {
+		miss, _ := reachAvoid(fn, nil, isReturn, hit)
+		return !miss
+	}
+	frame := onAll(func(in ssa.Instruction) bool {
+		ci, ok := in.(ssa.CallInstruction)
+		return ok && (calleeIs(ci, pkgStream, "Frame.Reset") || callReaches(ci, func(x ssa.CallInstruction) bool { return calleeIs(x, pkgStream, "Frame.Reset") }))
+	})
+	state := onAll(func(in ssa.Instruction) bool {
+		st, ok := in.(*ssa.Store)
+		if !ok || lastField(st.Addr) != "CompressingReader.state" {
+			return false
+		}
+		k, isK := constUint(st.Val)
+		return isK && k == 0
+	})
+	src := false
+	allInstrs(fn, func(in ssa.Instruction) {
+		if st, ok := in.(*ssa.Store); ok && lastField(st.Addr) == "CompressingReader.src" {
+			if _, isP := st.Val.(*ssa.Parameter); isP {
+				src = true
+			}
+		}
+	})
+	c.Sites++
+	c.Cond(frame && state && src, rule, "CompressingReader.Reset#rearms", p.Pos(fn.Pos()), "Reset resets the frame (magic, header latch, block) and the reader's state on every path, whatever state it is called in, and installs the new source", "frame.Reset(), state = Initial, src = argument on all paths", fmt.Sprintf("frame.Reset on all paths: %v, state = Initial on all paths: %v, src stored: %v - a frame that skips the frame reset keeps the 'header already written' latch: the next frame has no magic and no descriptor", frame, state, src))
 }
